@@ -29,6 +29,13 @@ def step(a):
     return 1.0 if a > 2 else 0.0
 
 
+def loopinc(a):
+    i = 0
+    while i < 1:
+        i += 1
+    return a + i
+
+
 def dsum(d):
     return float(d.sum())
 
@@ -55,7 +62,7 @@ def mad(a, b, c):
     return a * b + c
 
 
-ARITY = {"one": 0, "two": 0, "id": 1, "neg": 1, "dbl": 1, "inc": 1, "step": 1, "dsum": 1,
+ARITY = {"one": 0, "two": 0, "id": 1, "neg": 1, "dbl": 1, "inc": 1, "step": 1, "dsum": 1, "loopinc": 1,
          "add": 2, "sub": 2, "mul": 2, "sel": 2, "mad": 3}
 FNS = {n: globals()[n] for n in ARITY}
 
